@@ -13,15 +13,22 @@ tie   : stream makevalid — the valid/invalid generators of C05 (structurally w
         structure: membership of 24x24 samples = documented region (non-zero-winding shells, holes meeting the fixed
         shell subtracted, other holes added), collapses inside collections kept when requested (regression clause `keep-collapsed`),
         result type = dispatch model, idempotence (computed with GEOS).
+        12 % of the inputs are `cut trees` (harness/c17nest.h): one shell ring walking a tree of boxes joined by zero-width cuts — children
+        inside (keyhole rings, 2..7 nesting levels, alternating direction) or beside (the shell repairs into several parts) — plus hole
+        rings derived from the boxes (swallowing a box / a subtree, inside, equal, shifted).
+        stream hole-class — the real (private) GeometryFixer::fixRing / fixHoles / classifyHoles against Model/Fix/Holes.lean
+        (Props/C17Holes.lean: the point set the hole phase builds for any oracle, = the documented one for a sound oracle, = the
+        expectation of the area clause) with the exact oracle `holeMeetsShell` of the area clause.
 A broken clause on a generated input IS a violation of C17.  Known defects are matched by structural signatures."""
 import os, json, glob
 import verif, gtok
 from verif import log
 
 LEVEL = "proof"
-PROPS = ["GeosModel.Props.C17"]
+PROPS = ["GeosModel.Props.C17", "GeosModel.Props.C17Holes"]
 DRV = "drv_c17"
 STREAM = "makevalid"
+HOLE_STREAM = "hole-class"
 
 
 def evaluate(exe, geom, method, keep):
@@ -59,7 +66,10 @@ def signature(verdict):
     method : L (linework) | S (structure);  keep: keepCollapsed (structure only)
     finite : all input ordinates finite;  invalidLinearRing / pointRing: the input contains an invalid LinearRing element /
     a polygon ring all of whose points coincide (exact, from the driver);  emptyOutput: the result is empty;
-    ringRetracesEdge: some polygon ring runs over one of its own edges more than once;  model / impl: result types of the dispatch clause;
+    ringRetracesEdge: some polygon ring runs over one of its own edges more than once;  retracedSameDirection: two of those passes point the same
+    way (a piece of real boundary walked again — a spike laid along an edge; a zero-width cut or free spike has opposite passes only);
+    code (output-valid clause): the rule(s) of the C05 reference the output breaks;  bothOrientations: some input polygon ring has faces of
+    positive AND negative winding number (bufferByZero(geom, true) puts two orientation buffers together);  model / impl: result types of the dispatch clause;
     insideCollection (keep-collapsed clause): the collapse that was not kept although keepCollapsed is on is an element of a GeometryCollection"""
     t = verdict.split()
     if verdict.startswith("crash"):
@@ -83,12 +93,35 @@ def signature(verdict):
         sig["onlyMultiWrapping"] = d.get("idem") == "W"
     if sig["clause"] == "area":
         sig["ringRetracesEdge"] = d.get("retrace") == "1"
+        sig["retracedSameDirection"] = d.get("rsame") == "1"
+    if sig["clause"] == "output-valid":
+        sig["code"] = d.get("code", "?")
+        sig["bothOrientations"] = d.get("lobes") == "1"
     if sig["clause"] == "keep-collapsed":
         sig["insideCollection"] = d.get("incoll") == "1"
     if sig["clause"] == "dispatch":
         sig["model"] = d.get("mt", "?")[:40]
         sig["impl"] = d.get("it", "?")[:40]
     return sig
+
+
+def all_disagreements(work, stream, shards, r):
+    """verif.run_stream keeps the first 50 disagreements only (in shard order) and counts the rest; the recorded linework
+    findings alone produce more than that in a quick run, so the later shards would never be looked at.  Re-read the
+    shard files it leaves in the work directory and return every disagreement."""
+    if not r.get("more_disagreements"):
+        return r["disagreements"]
+    res = []
+    for k in range(shards):
+        base = os.path.join(work, "%s.%d" % (stream, k))
+        try:
+            with open(base + ".cases", errors="replace") as fc, open(base + ".expect", errors="replace") as fe, open(base + ".got", errors="replace") as fg:
+                for i, (c, e, g) in enumerate(zip(fc.read().split("\n"), fe.read().split("\n"), fg.read().split("\n"))):
+                    if c and e != g:
+                        res.append((i, c, e, g))
+        except OSError:
+            return r["disagreements"]
+    return res if len(res) >= len(r["disagreements"]) else r["disagreements"]
 
 
 def raw_keep(verdict, sig):
@@ -192,7 +225,7 @@ def run(ctx):
         else:
             ctx.violation("stream %s could not run: %s" % (STREAM, r["error"]), {"kind": "tie-broken", "correspondence": STREAM, "detail": r["error"]}, nofail=True)
     seen, shrunk = [], 0
-    for idx, case, exp, got in r["disagreements"]:
+    for idx, case, exp, got in all_disagreements(ctx.work, STREAM, 8, r):
         parts = case.split(" | ")
         if len(parts) < 4:
             continue
@@ -216,6 +249,40 @@ def run(ctx):
                       {"kind": "failing-input", "stream": STREAM, "geom": geom, "wkt": safe_wkt(geom), "method": method, "keep": keep,
                        "output_wkt": (safe_wkt(op[2]) if len(op) > 2 and op[2] != "NULL" else "NULL"), "observed": op[3] if len(op) > 3 else "",
                        "verdict": got, "signature": sig}, signature=sig)
+    # the hole phase of fixPolygonElement: which fixed holes the real classifyHoles subtracts / adds, against the model
+    nh = 1200 if quick else 60000
+    rh = verif.run_stream(exe, HOLE_STREAM, ctx.seed, nh, ctx.work, shards=8, driver_exe=DRV, timeout=12000)
+    hd = all_disagreements(ctx.work, HOLE_STREAM, 8, rh)
+    corr[HOLE_STREAM] = {"cases": rh["cases"], "disagreements": len(hd),
+                         "distribution": {k: v for k, v in rh["stats"].items() if not k.startswith("family_")}}
+    if rh["error"]:
+        ctx.violation("stream %s could not run: %s" % (HOLE_STREAM, rh["error"]), {"kind": "tie-broken", "correspondence": HOLE_STREAM, "detail": rh["error"]}, nofail=True)
+    hole_failing = False
+    for idx, case, exp, got in hd[:12]:
+        parts = case.split(" | ")
+        if len(parts) < 3:
+            continue
+        # a hole in the wrong list changes the point set unless it only touches: look for the broken clause of the contract
+        for keep in ("0", "1"):
+            v, obs = evaluate(exe, parts[1], "S", keep)
+            if v and (v.startswith("bad") or v.startswith("crash")):
+                sig = signature(v)
+                if sig in seen:
+                    hole_failing = True
+                    break
+                seen.append(sig)
+                op = obs.split(" | ") if obs else []
+                if ctx.violation("MakeValid breaks its contract (classifyHoles put a hole into the wrong list: %s): %s  [%s]" % (got, v, json.dumps(sig, sort_keys=True)),
+                                 {"kind": "failing-input", "stream": HOLE_STREAM, "geom": parts[1], "wkt": safe_wkt(parts[1]), "method": "S", "keep": keep,
+                                  "output_wkt": (safe_wkt(op[2]) if len(op) > 2 and op[2] != "NULL" else "NULL"), "hole_class": got, "verdict": v, "signature": sig}, signature=sig):
+                    hole_failing = True
+                    found_input = True
+                break
+        if hole_failing:
+            break
+    if hd and not hole_failing:
+        ctx.violation("GeometryFixer::classifyHoles and Model/Fix/Holes.lean (oracle holeMeetsShell) disagree on %d inputs, e.g. %s; no broken clause of the contract found on them" % (len(hd), hd[0][3]),
+                      {"kind": "tie-broken", "correspondence": HOLE_STREAM, "geom": hd[0][1].split(" | ")[1] if " | " in hd[0][1] else "", "verdict": hd[0][3]}, nofail=True)
     ctx.cov["support_correspondence"] = corr
     if not proved:
         lf = getattr(ctx, "lean_failure", None) or {}
